@@ -243,8 +243,8 @@ def run(ctx):
     # ---- erasure -------------------------------------------------------------------------
     names_pool = ['X', 'nb', 'dcl', 'b', 'mod=nm,form=base,fin=f', 'mod=X1,form=X2,fin=X3', 'case=ga,mod=nm,fin=f', '']
     subsets = [()] + [(n,) for n in names_pool] + [tuple(rng.sample(names_pool, k)) for k in (2, 2, 3, 3, 4) for _ in range(3)]
-    cpool = rng.sample(uni_en, ctx.budget(400, 1400)) + rng.sample(uni_ja, ctx.budget(300, 1400)) \
-        + rng.sample(shipped, ctx.budget(300, 3000)) \
+    cpool = rng.sample(uni_en, min(len(uni_en), ctx.budget(400, 1400))) + rng.sample(uni_ja, min(len(uni_ja), ctx.budget(300, 1400))) \
+        + rng.sample(shipped, min(len(shipped), ctx.budget(300, 3000))) \
         + [gen_cat.random_cat(rng, en_atoms + ja_atoms, 3) for _ in range(ctx.budget(200, 3000))]
     for c in cpool:
         for F in (subsets if ctx.thorough else rng.sample(subsets, 6)):
